@@ -181,6 +181,15 @@ func sigOfLog(h uint64, log []store.Event) uint64 {
 	return h
 }
 
+// sigOfLogBag folds the events of a log order-insensitively.
+func sigOfLogBag(h uint64, log []store.Event) uint64 {
+	var sum uint64
+	for _, e := range log {
+		sum += fnvMix(0, tape.HashString(e.Kind), tape.HashString(e.Outcome), uint64(e.Task))
+	}
+	return fnvMix(h, sum, uint64(len(log)))
+}
+
 func excerpt(log []store.Event, n int) []store.Event {
 	if len(log) <= n {
 		return append([]store.Event(nil), log...)
